@@ -448,11 +448,16 @@ def zero_buffer_sweep(ck, fns, rule, floor):
 
 
 def natural_loops(f):
-    out = []
-    for b in f.reachable():
+    """the strongly connected regions of the CFG that contain a cycle (each once)"""
+    out, seen = [], set()
+    for b in sorted(f.reachable()):
+        if b in seen:
+            continue
         r = f.reach_from(f.succ(b))
         if b in r:
-            out.append(set(x for x in r if b in f.reach_from(f.succ(x))) | {b})
+            lp = set(x for x in r if b in f.reach_from(f.succ(x))) | {b}
+            seen |= lp
+            out.append(lp)
     return out
 
 
@@ -493,4 +498,65 @@ def conditional_transcript_sweep(ck, c, scope, rule="DOM", floor=1):
                   ("all %d transcript entries are made on every accepting path" % len(seq)) + ((" except %s (%s)" % (sorted(cond), why)) if cond else "") if not extra else
                   "transcript entries %s are made on some paths only: on the other paths the challenge does not depend on them" % extra, f.loc())
     ck.floor(rule, "verifier-side functions that write the transcript", n, floor)
+    return n
+
+
+def geometric_weight_sweep(ck, c, scope, rule="DEFUSE", floor=1):
+    """Weights of a linear combination that are carried around a loop (`w`, then `w *= base` per item) must be UPDATED from
+    their previous value: a weight that is multiplied into the items and, inside the same loop, plainly re-assigned from a
+    loop-invariant value stops growing after the first step (1, b, b, b, .. instead of 1, b, b^2, ..)."""
+    n = 0
+    for p in sorted(c.paths()):
+        if not scope.search(p) or re.search(r"::tests?::|::test_", p):
+            continue
+        for b in c.get_all(p):
+            f = Fn(b)
+            loops = natural_loops(f)
+            if not loops:
+                continue
+            muls = f.calls(r"Field::mul_assign$|ops::MulAssign::mul_assign$|Field::add_assign$")
+
+            def ref_local(op):
+                q = op_place(op)
+                for _ in range(8):
+                    if q is None:
+                        return None
+                    ds = f.defs().get(q[0], [])
+                    if len(ds) == 1 and ds[0][1] != "t" and ds[0][2]["rv"].get("k") == "ref":
+                        pp = ds[0][2]["rv"]["p"]
+                        if not pp[1]:
+                            return pp[0]
+                        if [str(x) for x in pp[1]] == ["*"]:
+                            q = [pp[0], []]         # reborrow `&*r`
+                            continue
+                        return None
+                    if len(ds) == 1 and ds[0][1] != "t" and ds[0][2]["rv"].get("k") == "use":
+                        q = op_place(ds[0][2]["rv"]["a"])
+                        continue
+                    return None
+                return None
+            for lp in loops:
+                inloop = [(bi, t) for (bi, t) in muls if bi in lp and t["f"]["path"].endswith("mul_assign") and len(t["args"]) == 2]
+                weights = set()
+                for (bi, t) in inloop:
+                    recv, mult = ref_local(t["args"][0]), ref_local(t["args"][1])
+                    if recv is not None and mult is not None and recv != mult:
+                        weights.add(mult)
+                # loop-carried weights: also mutated inside the loop (receiver of a mul/add) or assigned there
+                for w in sorted(weights):
+                    mutated = [bi for (bi, t) in muls if bi in lp and ref_local(t["args"][0]) == w]
+                    assigned = [(bi, st) for bi in lp for st in f.stmts(bi) if "lhs" in st and st["lhs"][0] == w and not st["lhs"][1]]
+                    if not mutated and not assigned:
+                        continue        # loop-invariant multiplier
+                    n += 1
+                    bad = []
+                    for (bi, st) in assigned:
+                        rv = st["rv"]
+                        src = rules.root_local(f, rv["a"]) if rv.get("k") == "use" and op_const(rv["a"]) is None else None
+                        if rv.get("k") == "use" and (op_const(rv["a"]) is not None or (src and not src[1] and src[0] != w and not any(b2 in lp for (b2, _, _) in f.defs().get(src[0], [])))):
+                            bad.append(bi)
+                    ck.ob(rule, p, "loop-carried-weight-updated-from-itself:%s" % f.names().get(w, "_%d" % w), not bad,
+                          "the weight is updated by multiplication/addition on its previous value" if not bad else
+                          "inside the loop the weight is re-assigned from a loop-invariant value: the progression of weights collapses after the first item", f.loc(bad[0]) if bad else f.loc(sorted(lp)[0]))
+    ck.floor(rule, "loop-carried weights of linear combinations", n, floor)
     return n
